@@ -619,6 +619,15 @@ def sweep_thermal(res, rng, npr, extra):
         t1 = rng.choice([rng.uniform(0.1, 10), 10 ** rng.uniform(-6, 3)])
         t2 = rng.choice([2 * t1, t1, rng.uniform(0.01, 2) * t1])
         grid.append((t1, t2, rng.choice([0.0, rng.uniform(0, 3) * t1, 1e-3 * t1]), rng.choice([0.0, 1.0, rng.random()])))
+    # the rank-deficient boundary of the Choi matrix: population exactly 0 or 1 with the T1-limited case t2 = 2 t1, or a gate so
+    # long that 1 - p_reset rounds to 0 before exp(-t / t2) ** 2 underflows (square roots of rounding-negative numbers live here)
+    for j in range(max(60, extra // 2)):
+        t1 = rng.choice([rng.uniform(0.1, 100), 10 ** rng.uniform(-6, 3), float(rng.randint(1, 60))])
+        e = float(j % 2)
+        if j % 3:
+            grid.append((t1, 2 * t1, rng.choice([rng.uniform(0, 3) * t1, 10 ** rng.uniform(-4, 0) * t1, 0.1, 1.0]), e))
+        else:
+            grid.append((t1, rng.choice([t1, 2 * t1, 0.5 * t1]), rng.choice([rng.uniform(30, 60), 100.0, 700.0, 1e4]) * t1, e))
     for t1, t2, t, e in grid:
         instr = try_build(res, name, lambda: N.ThermalRelaxationNoise(t1, t2, t, e), [t1, t2, t, e], True)
         if instr is None:
